@@ -90,7 +90,9 @@ func observe(hist []model.Op, ets, ids []string) obs {
 	}
 	for _, id := range ids {
 		cp := model.Replay(hist, nil)
-		o.class[id] = model.RemoveNodeClassOf(cp.B.RemoveNode(context.Background(), eventlogger.NodeID(id)))
+		before := cp.ClosesByID()
+		err := cp.B.RemoveNode(context.Background(), eventlogger.NodeID(id))
+		o.class[id] = model.RemoveNodeOutcome(err, cp.ClosesByID()[id]-before[id])
 	}
 	return o
 }
